@@ -451,7 +451,11 @@ namespace nmtools::array
                 NMTOOLS_VERIF_EVAL_SHAPE_MISMATCH(21);
             #endif
             if (binary_case == BinaryCase::INVALID) {
-                return false;
+                // operands that are neither of the same shape nor both 2-d (e.g. (r,c) with (c), 3-d with 2-d):
+                // no simd kernel handles them; returning false left the output unwritten, use the scalar evaluator
+                auto fallback = evaluator_t<view_t,none_t,resolver_t>{view,None};
+                fallback(output);
+                return true;
             }
 
             const auto size = inp_index.size();
